@@ -293,7 +293,7 @@ def use_rules(ctx, ci, Gd, myH, n, k, d, is_hamming):
             continue
         else:
             raise AnalysisError(f"{chk.qualname}: result {v!r} not modelled")
-    wforms = [I3.atom_form(("w", i)) for i in range(n)]
+    wforms = [I3.raw_atom(("w", i)) for i in range(n)]   # not rewritten by the constraints of whichever path was explored last
     syn = []
     for row in myH:
         acc = F(0, 0)
